@@ -15,14 +15,19 @@ package main
 // written to the configuration is a validly signed head of a true log (clCheckAuthentic, clCheckTimeline), a restarted
 // or second client on that configuration goes on, a fork report carries both signed heads (clCheckSecurity).
 //
-//	ts    one extra line   ("timestamp 1569000000")
-//	two   two extra lines
+//	ts       one extra line   ("timestamp 1569000000")
+//	two      two extra lines
+//	pad<N>   as many extra lines (64 bytes each) as it takes for the signed head to be at least N bytes long
 //
 // c13HeadExtCases runs the fork enumeration of c13.go (long-lived / restarted / warm / second client / fresh client
 // shown the fork first / concurrent shapes / stale replays) with every lookup response carrying such a head.
+//
+// c13LongHeadCases — the SIZE of a signed head as an input dimension (see there).
 
 import (
+	"bytes"
 	"fmt"
+	"strconv"
 	"strings"
 
 	"golang.org/x/mod/sumdb/note"
@@ -31,11 +36,18 @@ import (
 
 func clHeadExtApply(e *clEnv, variant string, honest []byte, herr error) ([]byte, error, bool) {
 	var extra string
-	switch variant {
-	case "ts":
+	padTo := 0
+	switch {
+	case variant == "ts":
 		extra = "timestamp 1569000000\n"
-	case "two":
+	case variant == "two":
 		extra = "timestamp 1569000000\nwitness-policy example.org/policy v1\n"
+	case strings.HasPrefix(variant, "pad"):
+		n, err := strconv.Atoi(variant[3:])
+		if err != nil || n < 0 || n > 1<<21 {
+			return nil, nil, false
+		}
+		padTo = n
 	default:
 		return nil, nil, false
 	}
@@ -59,6 +71,16 @@ func clHeadExtApply(e *clEnv, variant string, honest []byte, herr error) ([]byte
 	}
 	if _, err := tlog.ParseTree([]byte(n.Text)); err != nil {
 		return honest, nil, true
+	}
+	if padTo > 0 {
+		// 64-byte lines "x-ext-000017 wwww…w\n"; at least one, then until the signed head has reached padTo bytes
+		// (the head grows by exactly the bytes added to its text)
+		var b strings.Builder
+		for i := 0; i == 0 || len(msg)+b.Len() < padTo; i++ {
+			l := fmt.Sprintf("x-ext-%06d ", i)
+			b.WriteString(l + strings.Repeat("w", 63-len(l)) + "\n")
+		}
+		extra = b.String()
 	}
 	signer, err := note.NewSigner(key)
 	if err != nil {
@@ -105,4 +127,179 @@ func c13HeadExtCases(g *Rand) []c13Case {
 		}
 	}
 	return cases
+}
+
+// c13LongHeadCases — the SIZE of a signed tree head as an input dimension.
+//
+// Input class (added because it was missing: every signed head of every scenario was a "small" note — the three-line
+// head of FormatTree with one signature, about 200 bytes, or that head with one or two short extra lines (variants ts /
+// two above), under 300 bytes.  Nothing in the formats bounds a head to that: the text may carry any number of
+// additional lines after the hash (tlog.ParseTree ignores them), and a note may carry up to 100 signature lines, those of
+// keys the client does not know being ignored (co-signatures, util_clsigs.go).  So whatever the client does with the
+// BYTES of a head — keep them, write them to the configuration, hand them to the security callback — was only ever
+// observed on notes far shorter than any buffer, line or echo bound an implementation might have).
+//
+// The fork enumeration of c13.go is run with heads of growing size, on a roughly geometric ladder from a few hundred
+// bytes to tens of kilobytes (hundreds of kilobytes in the thorough tier), each step jittered, built in three ways:
+//
+//	text   additional text lines                              f+=L/headext/pad<N>
+//	sigs   k co-signatures of unknown keys, k = 1 … 99,        f+=L/sigs/<k>[.pre|.dup]
+//	       after / before the server's line / one line repeated
+//	both   some extra lines and some co-signatures
+//
+// and in three placements: every head long (`all`); only the heads presented from the second server onwards — in a fork
+// shape: the forked head long, the client's own head the ordinary short one (`second`); only the heads of the first
+// server long, i.e. the client's own head long and the forked head short (`first`).  The concurrent shapes carry fault
+// rules of their own (the split-view server), so there the rule is appended after them and covers every response.
+//
+// All of these heads are honest heads of the log they come from, so every clause of C13 applies unchanged.  The clause
+// that looks at the bytes is "whenever the failure is reported as a security error the security callback received both
+// signed heads": clCheckSecurity / c13CheckSecurityPar / c13CheckSecurityFresh search the report for the COMPLETE signed
+// notes the client was given — each candidate is re-opened with note.Open under the configured key (classifyHead) and
+// must occur in the report byte for byte, from the first byte of its text to the newline of its last signature line
+// (bytes.Contains of the indented note) — not for a size, a hash or the start of a signature line; a head that is only
+// partly in the report does not count, and a report with fewer than two mutually inconsistent complete heads is a finding.
+// Likewise "the stored head is a validly signed head" re-opens every value written to the configuration.
+// c13TagReportSizes records how long the heads found complete in the reports were (coverage only).
+func c13LongHeadCases(g *Rand) []c13Case {
+	maxN, heights, keepFork, keepOther := 8, []int{1, 2}, 16, 80
+	ladder := []int{384, 768, 1536, 3072, 6144, 12288, 49152}
+	sigLadder := []int{1, 2, 4, 8, 16, 32, 64, 99}
+	if thorough {
+		maxN, heights, keepFork, keepOther = 20, []int{1, 2, 3, 5}, 3, 12
+		ladder = append(ladder, 196608, 786432)
+	}
+	wseed := g.U64()%1000 + 1
+	// one (way, size) per call, jittered: pad sizes between the rung and 1.5 × the rung
+	pickFault := func() (fault []string, way string) {
+		pad := func() string {
+			r := ladder[g.Intn(len(ladder))]
+			return fmt.Sprintf("f+=L/headext/pad%d", r+g.Intn(r/2+1))
+		}
+		sigs := func(max int) string {
+			k := sigLadder[g.Intn(len(sigLadder))]
+			for k > max {
+				k /= 2
+			}
+			return fmt.Sprintf("f+=L/sigs/%d%s", k, []string{"", "", ".pre", ".dup"}[g.Intn(4)])
+		}
+		switch g.Intn(5) {
+		case 0, 1:
+			return []string{pad()}, "text"
+		case 2, 3:
+			return []string{sigs(99)}, "sigs"
+		}
+		return []string{pad(), sigs(32)}, "both"
+	}
+	isStep := func(t string) bool {
+		return strings.HasPrefix(t, "new=") || strings.HasPrefix(t, "warm=") || strings.HasPrefix(t, "par=") || strings.HasPrefix(t, "look=")
+	}
+	var cases []c13Case
+	kf, ko := 0, 0
+	for nA := 2; nA <= maxN; nA++ {
+		for p := 0; p <= nA; p++ {
+			if thorough && nA > 10 && g.Intn(nA/3) != 0 {
+				continue
+			}
+			nB := []int{p + 1, nA, nA + 1 + g.Intn(3)}[g.Intn(3)]
+			if nB <= p {
+				continue
+			}
+			h := heights[g.Intn(len(heights))]
+			c13Enumerate(g, wseed, nA, p, nB, h, func(c c13Case) {
+				// both heads beyond the common prefix (a detected fork needs that) get the larger share
+				conc := strings.HasPrefix(c.tag, "concurrent/")
+				if strings.Contains(c.tag, "a>p,b>p") {
+					if kf++; kf%keepFork != 0 {
+						return
+					}
+				} else {
+					if ko++; ko%keepOther != 0 {
+						return
+					}
+				}
+				f := strings.Fields(c.line)
+				if len(f) < 4 {
+					return
+				}
+				fault, way := pickFault()
+				// positions: `at` the first step that creates a client or looks something up (every fault rule a shape
+				// brings along precedes it); `snd` the second server of a sequential shape
+				at, snd := -1, -1
+				for i := 3; i < len(f); i++ {
+					if at < 0 && isStep(f[i]) {
+						at = i
+					}
+					if at >= 0 && snd < 0 && strings.HasPrefix(f[i], "srv=") {
+						snd = i
+					}
+				}
+				if at < 0 {
+					return
+				}
+				place := "all"
+				if !conc && snd > at {
+					place = []string{"all", "second", "second", "first"}[g.Intn(4)]
+				}
+				var out []string
+				switch place {
+				case "all":
+					out = append(append(append(out, f[:at]...), fault...), f[at:]...)
+				case "second":
+					out = append(append(append(out, f[:snd]...), fault...), f[snd:]...)
+				case "first":
+					out = append(append(append(out, f[:at]...), fault...), f[at:snd]...)
+					out = append(append(out, "f-="), f[snd:]...)
+				}
+				cases = append(cases, c13Case{strings.Join(out, " "), "longhead/" + way + "/" + place + "/" + strings.SplitN(c.tag, "/", 2)[0]})
+			})
+		}
+	}
+	return cases
+}
+
+// c13TagReportSizes: coverage only — for every security report, the length of each complete signed head found in it
+// (same candidates and same test as clCheckSecurity), in size classes; and whether a report was seen at all in which a
+// head the client had been given is present only in part (never on a client for which the property holds: that is what
+// the message clauses report; here it is just counted).
+func c13TagReportSizes(g *Gen, out *clOutcome) {
+	tr := out.env.trace
+	for _, ev := range tr {
+		if ev.Kind != "sec" || ev.C < 0 {
+			continue
+		}
+		seen := map[string]bool{}
+		for _, e2 := range tr[:ev.Seq] {
+			if e2.C != ev.C || e2.Err != "" {
+				continue
+			}
+			var cnd []byte
+			switch {
+			case e2.Kind == "rf" && e2.File == clName+"/latest":
+				cnd = e2.Data
+			case e2.Kind == "rr" || e2.Kind == "rc":
+				if _, _, rest, err := tlog.ParseRecord(e2.Data); err == nil {
+					cnd = rest
+				}
+			}
+			if len(cnd) == 0 || seen[string(cnd)] {
+				continue
+			}
+			seen[string(cnd)] = true
+			if !bytes.Contains(ev.Data, clIndent(cnd)) {
+				continue
+			}
+			cls := ">64K"
+			for _, b := range []int{256, 512, 1024, 2048, 4096, 16384, 65536} {
+				if len(cnd) <= b {
+					cls = "<=" + strconv.Itoa(b)
+					break
+				}
+			}
+			g.st.OracleTags["report-carries-complete-head-of-bytes/"+cls]++
+			if k := clCountSigLines(cnd); k > 1 {
+				g.st.OracleTags["report-carries-complete-cosigned-head"]++
+			}
+		}
+	}
 }
